@@ -2,10 +2,10 @@
 //!
 //! * `run_hit` / `run_path` / `run_end` run ONE generator call in isolation on chosen inputs and
 //!   return the produced notes, the `stair_type` and the PRNG state afterwards;
-//! * `convert_traced` runs the real `convert` and records, per source object, which generator ran,
-//!   with which `convert_type`, what it produced and the PRNG state afterwards.
-
-use std::cell::RefCell;
+//! * `convert_traced` runs a copy of the per-object loop of `convert` that calls the real generators
+//!   and records, per source object, which generator ran, with which `convert_type`, what it
+//!   produced and the PRNG state afterwards (no global or thread-local state; the callers compare
+//!   its output with the real `convert`).
 
 use rosu_map::{section::hit_objects::hit_samples::HitSoundType, util::Pos};
 
@@ -283,112 +283,186 @@ pub struct Trace {
     pub objects: Vec<TraceObj>,
 }
 
-thread_local! {
-    static TRACE: RefCell<Option<Trace>> = const { RefCell::new(None) };
-}
+/// Runs the conversion on a copy of `map` (which must be an unconverted osu! map) with a copy of the
+/// per-object loop of `convert` that calls the real generators and records what they return. The
+/// callers compare the result with the output of the real `convert`.
+pub fn convert_traced(src: &Beatmap, mods: &GameMods) -> (Beatmap, Trace) {
+    let mut map = src.clone();
+    use rosu_map::section::general::GameMode;
 
-fn with_trace(f: impl FnOnce(&mut Trace)) {
-    TRACE.with(|t| {
-        if let Some(trace) = t.borrow_mut().as_mut() {
-            f(trace);
+    use crate::util::{limited_queue::LimitedQueue, sort};
+
+    let seed = (map.hp + map.cs).round_ties_even() as i32 * 20
+        + (map.od * 41.2) as i32
+        + map.ar.round_ties_even() as i32;
+
+    let mut random = Random::new(seed);
+
+    map.cs = super::target_columns(&map, mods);
+
+    let mut prev_note_times = LimitedQueue::<f64, { super::MAX_NOTES_FOR_DENSITY }>::new();
+    let mut density = f64::from(i32::MAX);
+
+    let mut compute_density = |new_note_time: f64, d: &mut f64| {
+        prev_note_times.push(new_note_time);
+
+        if let ([first, ..], [.., last]) | ([], [first, .., last]) | ([first, .., last], []) =
+            prev_note_times.as_slices()
+        {
+            *d = (last - first) / prev_note_times.len() as f64;
         }
-    });
-}
+    };
 
-/// Runs the real `convert` on a copy of `map` (which must be an unconverted osu! map) with tracing
-/// switched on for this thread.
-pub fn convert_traced(map: &Beatmap, mods: &GameMods) -> (Beatmap, Trace) {
-    TRACE.with(|t| *t.borrow_mut() = Some(Trace::default()));
-    let mut out = map.clone();
-    super::convert(&mut out, mods);
-    let trace = TRACE.with(|t| t.borrow_mut().take()).unwrap_or_default();
+    let total_columns = map.cs as i32;
+    let mut last_values = PrevValues::default();
+    let mut new_hit_objects = Vec::with_capacity(512);
 
-    (out, trace)
-}
+    let mut trace = Trace {
+        seed,
+        total_columns,
+        conversion_difficulty: None,
+        objects: Vec::new(),
+    };
 
-pub(super) fn trace_begin(seed: i32, total_columns: i32) {
-    with_trace(|t| {
-        t.seed = seed;
-        t.total_columns = total_columns;
-    });
-}
+    for (obj, sound) in map.hit_objects.iter().zip(map.hit_sounds.iter().copied()) {
+        match obj.kind {
+            HitObjectKind::Circle => {
+                compute_density(obj.start_time, &mut density);
 
-pub(super) fn trace_circle(
-    gen: &HitObjectPatternGenerator<'_>,
-    last_values: &PrevValues,
-    pattern: &Pattern,
-) {
-    with_trace(|t| {
-        let total = gen.inner.total_columns;
-        t.conversion_difficulty = Some(gen.inner.verif_conversion_difficulty());
+                let mut gen = HitObjectPatternGenerator::new(
+                    &mut random,
+                    obj,
+                    sound,
+                    total_columns,
+                    &last_values,
+                    density,
+                    &map,
+                );
 
-        t.objects.push(TraceObj::Circle {
-            x: gen.inner.hit_object.pos.x,
-            start_time: gen.inner.hit_object.start_time,
-            sample: u8::from(gen.sample),
-            convert_type: gen.verif_convert_type(),
-            stair_before: last_values.stair.verif_bits(),
-            stair_after: gen.stair_type.verif_bits(),
-            prev: notes_of(&last_values.pattern, total)
-                .iter()
-                .map(|n| n.column)
-                .collect(),
-            notes: notes_of(pattern, total),
-            rng: gen.inner.verif_rng(),
-        });
-    });
-}
+                let convert_type = gen.verif_convert_type();
+                let new_pattern = gen.generate();
 
-pub(super) fn trace_slider_begin(gen: &PathObjectPatternGenerator<'_>) {
-    with_trace(|t| {
-        let (convert_type, span_count, start_time, end_time) = gen.verif_params();
-        t.conversion_difficulty = Some(gen.inner.verif_conversion_difficulty());
+                trace.conversion_difficulty = Some(gen.inner.verif_conversion_difficulty());
 
-        t.objects.push(TraceObj::Slider {
-            x: gen.inner.hit_object.pos.x,
-            sample: u8::from(gen.sample),
-            convert_type,
-            span_count,
-            start_time,
-            end_time,
-            segment_duration: gen.segment_duration,
-            node_sounds: gen.verif_node_sounds().iter().map(|s| u8::from(*s)).collect(),
-            patterns: Vec::new(),
-            rng: [0; 4],
-        });
-    });
-}
+                trace.objects.push(TraceObj::Circle {
+                    x: obj.pos.x,
+                    start_time: obj.start_time,
+                    sample: u8::from(sound),
+                    convert_type,
+                    stair_before: last_values.stair.verif_bits(),
+                    stair_after: gen.stair_type.verif_bits(),
+                    prev: notes_of(&last_values.pattern, total_columns)
+                        .iter()
+                        .map(|n| n.column)
+                        .collect(),
+                    notes: notes_of(&new_pattern, total_columns),
+                    rng: gen.inner.verif_rng(),
+                });
 
-pub(super) fn trace_slider_pattern(pattern: &Pattern) {
-    with_trace(|t| {
-        let total = t.total_columns;
+                last_values.stair = gen.stair_type;
+                last_values.time = obj.start_time;
+                last_values.pos = obj.pos;
 
-        if let Some(TraceObj::Slider { patterns, .. }) = t.objects.last_mut() {
-            patterns.push(notes_of(pattern, total));
+                let new_hit_objects_iter = new_pattern.hit_objects.iter().cloned();
+                new_hit_objects.extend(new_hit_objects_iter);
+
+                last_values.pattern = new_pattern;
+            }
+            HitObjectKind::Slider(ref slider) => {
+                let mut gen = PathObjectPatternGenerator::new(
+                    &mut random,
+                    obj,
+                    sound,
+                    total_columns,
+                    &last_values.pattern,
+                    &map,
+                    slider.repeats,
+                    slider.expected_dist,
+                    &slider.node_sounds,
+                );
+
+                let (convert_type, span_count, start_time, end_time) = gen.verif_params();
+                let seg = gen.segment_duration;
+                let segment_duration = f64::from(gen.segment_duration);
+
+                for i in 0..=slider.repeats as i32 + 1 {
+                    let time = obj.start_time + segment_duration * f64::from(i);
+
+                    last_values.time = time;
+                    last_values.pos = obj.pos;
+
+                    compute_density(time, &mut density);
+                }
+
+                let patterns = gen.generate();
+
+                trace.conversion_difficulty = Some(gen.inner.verif_conversion_difficulty());
+
+                trace.objects.push(TraceObj::Slider {
+                    x: obj.pos.x,
+                    sample: u8::from(sound),
+                    convert_type,
+                    span_count,
+                    start_time,
+                    end_time,
+                    segment_duration: seg,
+                    node_sounds: slider.node_sounds.iter().map(|s| u8::from(*s)).collect(),
+                    patterns: patterns
+                        .iter()
+                        .map(|p| notes_of(p, total_columns))
+                        .collect(),
+                    rng: gen.inner.verif_rng(),
+                });
+
+                for new_pattern in patterns {
+                    new_hit_objects.extend_from_slice(&new_pattern.hit_objects);
+                    last_values.pattern = new_pattern;
+                }
+            }
+            HitObjectKind::Spinner(crate::model::hit_object::Spinner { duration })
+            | HitObjectKind::Hold(HoldNote { duration }) => {
+                let end_time = obj.start_time + duration;
+
+                let mut gen = EndTimeObjectPatternGenerator::new(
+                    &mut random,
+                    obj,
+                    end_time,
+                    sound,
+                    total_columns,
+                    &last_values.pattern,
+                    &map,
+                );
+
+                last_values.time = end_time;
+                last_values.pos = Pos::new(256.0, 192.0);
+
+                compute_density(end_time, &mut density);
+
+                let new_pattern = gen.generate();
+
+                trace.conversion_difficulty = Some(gen.inner.verif_conversion_difficulty());
+
+                trace.objects.push(TraceObj::Spinner {
+                    sample: u8::from(sound),
+                    convert_type: gen.verif_convert_type(),
+                    start_time: obj.start_time,
+                    end_time,
+                    notes: notes_of(&new_pattern, total_columns),
+                    rng: gen.inner.verif_rng(),
+                });
+
+                new_hit_objects.extend(new_pattern.hit_objects);
+            }
         }
-    });
-}
+    }
 
-pub(super) fn trace_slider_end(gen: &PathObjectPatternGenerator<'_>) {
-    with_trace(|t| {
-        if let Some(TraceObj::Slider { rng, .. }) = t.objects.last_mut() {
-            *rng = gen.inner.verif_rng();
-        }
-    });
-}
+    map.hit_sounds.clear();
+    map.hit_objects = new_hit_objects;
+    map.hit_objects.sort_by(super::cmp_by_start_time);
+    sort::osu_legacy(&mut map.hit_objects);
 
-pub(super) fn trace_spinner(gen: &EndTimeObjectPatternGenerator<'_>, pattern: &Pattern) {
-    with_trace(|t| {
-        let total = gen.inner.total_columns;
-        t.conversion_difficulty = Some(gen.inner.verif_conversion_difficulty());
+    map.mode = GameMode::Mania;
+    map.is_convert = true;
 
-        t.objects.push(TraceObj::Spinner {
-            sample: u8::from(gen.sample),
-            convert_type: gen.verif_convert_type(),
-            start_time: gen.inner.hit_object.start_time,
-            end_time: gen.end_time,
-            notes: notes_of(pattern, total),
-            rng: gen.inner.verif_rng(),
-        });
-    });
+    (map, trace)
 }
